@@ -12,6 +12,7 @@ Reads with `ast` (nothing is imported):
   sqlframe/<engine>/session.py  for EVERY engine package that has one: class-level SANITIZE_COLUMN_NAMES, the `_is_*`
                               overrides, the Builder's DEFAULT_* overrides, (spark) the pair in its own `_collect`
   sqlframe/base/*.py          the set of `_is_<engine>` names the function dispatch refers to
+  sqlframe/base/functions.py  round(): on which call forms the Postgres branch casts the operand to NUMERIC
 
 Anything outside these shapes raises Untranslatable (never a guess, never a default).
 """
@@ -235,6 +236,68 @@ def flags_used(repo: str) -> t.List[str]:
     return sorted(used)
 
 
+def round_decision(repo: str) -> t.Tuple[bool, bool]:
+    """base/functions.round: is the operand cast to NUMERIC on a Postgres session (without a scale, with a scale)?
+
+        session = _get_session()
+        [if session._is_postgres: col = Column.ensure_col(col).cast("numeric")]
+        if scale is not None:
+            [if session._is_postgres: col = Column.ensure_col(col).cast("numeric")]
+            return Column.invoke_expression_over_column(col, expression.Round, decimals=scale)
+        [if session._is_postgres: col = ...cast("numeric")]
+        return Column.invoke_expression_over_column(col, expression.Round)
+    """
+    ob = "Gen.Engines.round"
+    fn = find_func(parse(repo, "sqlframe/base/functions.py").body, "round")
+    if [a.arg for a in fn.args.args] != ["col", "scale"]:
+        raise Untranslatable(ob, f"unexpected parameters {[a.arg for a in fn.args.args]}")
+    body = [s for s in fn.body if not (isinstance(s, ast.Expr) and isinstance(s.value, ast.Constant))]
+    if not body or ast.unparse(body[0]) != "session = _get_session()":
+        raise Untranslatable(ob, "does not start with `session = _get_session()`")
+
+    def is_pg_cast(st: ast.stmt) -> bool:
+        if isinstance(st, ast.If) and not st.orelse and len(st.body) == 1:
+            test = ast.unparse(st.test)
+            if test.startswith("session._is_"):
+                if test != "session._is_postgres":
+                    raise Untranslatable(ob, f"an engine branch this translator does not know: {test}")
+                if ast.unparse(st.body[0]) not in ("col = Column.ensure_col(col).cast('numeric')",):
+                    raise Untranslatable(ob, f"unexpected Postgres branch {ast.unparse(st.body[0])!r}")
+                return True
+        return False
+
+    def is_round_return(st: ast.stmt, with_scale: bool) -> bool:
+        want = "return Column.invoke_expression_over_column(col, expression.Round" + (", decimals=scale)" if with_scale else ")")
+        return isinstance(st, ast.Return) and ast.unparse(st) == want
+
+    cast = False  # has `col` been cast on the Postgres path so far?
+    with_scale: t.Optional[bool] = None
+    no_scale: t.Optional[bool] = None
+    for st in body[1:]:
+        if no_scale is not None:
+            raise Untranslatable(ob, "statements after the final return")
+        if is_pg_cast(st):
+            cast = True
+        elif isinstance(st, ast.If) and ast.unparse(st.test) == "scale is not None" and not st.orelse and with_scale is None:
+            inner = cast
+            for j, s2 in enumerate(st.body):
+                if is_pg_cast(s2):
+                    inner = True
+                elif is_round_return(s2, True) and j == len(st.body) - 1:
+                    with_scale = inner
+                else:
+                    raise Untranslatable(ob, f"unexpected statement in the with-scale branch: {ast.unparse(s2)[:80]!r}")
+            if with_scale is None:
+                raise Untranslatable(ob, "the with-scale branch does not return")
+        elif is_round_return(st, False):
+            no_scale = cast
+        else:
+            raise Untranslatable(ob, f"unexpected statement {ast.unparse(st)[:80]!r}")
+    if with_scale is None or no_scale is None:
+        raise Untranslatable(ob, "round() does not have the two call forms")
+    return no_scale, with_scale
+
+
 def extract(repo: str) -> t.Dict[str, t.Any]:
     """everything the Lean text is rendered from (also used by the check to compare with the running code)"""
     ob = "Gen.Engines"
@@ -393,6 +456,7 @@ def extract(repo: str) -> t.Dict[str, t.Any]:
         "quoteIn": quote[0],
         "engines": engines,
         "flagsUsed": flags_used(repo),
+        "roundPgCast": round_decision(repo),
     }
 
 
@@ -486,6 +550,10 @@ def gen_engines(repo: str) -> str:
     out.append("")
     out.append("/-- the `_is_<engine>` names the function dispatch under sqlframe/base refers to -/")
     out.append("def flagsUsed : List String := [" + ", ".join(lean_str(f) for f in x["flagsUsed"]) + "]")
+    out.append("")
+    out.append("/-- functions.round on a Postgres session: the operand is cast to NUMERIC when no scale is given / when a scale is given -/")
+    out.append(f"def roundPgCastNoScale : Bool := {b(x['roundPgCast'][0])}")
+    out.append(f"def roundPgCastWithScale : Bool := {b(x['roundPgCast'][1])}")
     out.append("")
     out.append("end Sqlframe.Gen")
     return "\n".join(out) + "\n"
